@@ -76,6 +76,12 @@ def check(prog: Program, run: Run) -> None:
              "before any byte is read (same length expression in guard and read)", floor=3)
     run.rule("C05.R3", "callers that try several candidates catch DecodeError (not something "
              "narrower)", floor=5)
+    run.rule("C05.R4", "the values of key parameters stay available to every dependent "
+             "parameter of the PDU: key tables are written by their owners only and never "
+             "emptied (shared with C01.R3)", floor=5)
+    from . import c01
+    from .common import run_as
+    run_as(run, "C01.R3", "C05.R4", lambda r: c01.key_tables(prog, r))
     cg = CallGraph(prog)
     eff = Effects(prog, cg, DATA_PARAMS, DATA_CALLS, set(CUT), DATA_ATTRS, {"decode_state"})
     entries = [prog.func(e) for e in ENTRIES]
@@ -197,6 +203,47 @@ def _implicit(prog: Program, run: Run, eff: Effects) -> None:
                                   f"`{ast.unparse(x)}` indexes a list that was filtered by the "
                                   "decoded value without testing that it is non-empty: "
                                   "IndexError", f"{f.module.rel}:{x.lineno}", stmt_key(st))
+        # (v) numeric presentation types in f-strings (`{v:02x}`): ValueError / TypeError unless the
+        #     value is an int (float) -- a decoded value need not be one
+        import re as _re
+        names_d = eff._data_names(f)
+        for x in walk_no_nested(f.node):
+            if not (isinstance(x, ast.FormattedValue) and x.format_spec is not None):
+                continue
+            spec = "".join(v.value for v in x.format_spec.values if isinstance(v, ast.Constant))
+            if not _re.search(r"[xXobdeEfFgGn%c]$", spec):
+                continue
+            if not eff._is_data(x.value, names_d) and not any(
+                    isinstance(y, ast.Attribute) and y.attr.endswith("_value")
+                    for y in ast.walk(x.value)):
+                continue
+            n += 1
+            vtxt = ast.unparse(x.value)
+            st = _stmt(f.node, x)
+            sn = cfg.node_of(st)
+            guarded = False
+            for g in walk_no_nested(f.node):
+                t = g.test if isinstance(g, (ast.Assert, ast.If)) else None
+                if t is None:
+                    continue
+                for c in ast.walk(t):
+                    if isinstance(c, ast.Call) and call_name(c) == "isinstance" and len(
+                            c.args) == 2 and ast.unparse(c.args[0]) == vtxt and any(
+                                k in ast.unparse(c.args[1]) for k in ("int", "float")):
+                        try:
+                            if cfg.dominates(cfg.node_of(g), sn):
+                                guarded = True
+                        except Exception:  # noqa: BLE001
+                            pass
+            if guarded or eff.caught(f, x, "ValueError"):
+                run.ok(R, f"{f.module.rel}:{f.qual}", f"`{{{vtxt}:{spec}}}` is formatted after an "
+                       "isinstance test", f"{f.module.rel}:{x.lineno}")
+            else:
+                run.violation(R, f"{f.module.rel}:{f.qual}", f"implicit-ValueError-format-{vtxt}",
+                              f"`{{{vtxt}:{spec}}}` applies a numeric format to a value that need "
+                              "not be a number (a decoded or described value of any ODX type): "
+                              "ValueError instead of a DecodeError",
+                              f"{f.module.rel}:{x.lineno}", stmt_key(st))
         # (iv) reads of possibly unassigned locals
         hits = use_before_def(f.node, CFG(f.node, odxraise_continues=False))
         for name in sorted({h[0] for h in hits}):
@@ -209,7 +256,8 @@ def _implicit(prog: Program, run: Run, eff: Effects) -> None:
                                     "decode_state.<dict>[key] without membership test -> KeyError",
                                     "[i] on a value-filtered list without length test -> "
                                     "IndexError", "read of a possibly unassigned local -> "
-                                    "UnboundLocalError"])
+                                    "UnboundLocalError", "numeric format spec on a decoded / "
+                                    "described value without isinstance test -> ValueError"])
     run.info("implicit_sites_examined", n)
 
 
